@@ -1389,7 +1389,8 @@ class BayesianNetwork(DAG):
             mask = rng.random(size=samples.shape)
             missing_mask = mask < missing_prob
 
-            if missing_columns:
+            # None means every column; an empty list means no column.
+            if missing_columns is not None:
                 col_indices = [
                     samples.columns.get_loc(col)
                     for col in samples.columns
